@@ -141,16 +141,8 @@ def parseT17 (cfg : Cfg) (bs : List UInt8) : Res Msg := do
      (.p_message_type, .nat p_type), (.station_id, .nat station_id), (.z_count, .nat z_count),
      (.sequence_number, .nat seq), (.n, .nat n), (.health, .nat health), (.data, .bytes data)]⟩
 
-/-- `static_data_report.rs` (type 24) -/
-def parseT24 (cfg : Cfg) (bs : List UInt8) : Res Msg := do
-  let c : Cur := ⟨bs, 0⟩
-  let (message_type, c) ← take 8 6 c
-  let (repeat_indicator, c) ← take 8 2 c
-  let (mmsi, c) ← take 32 30 c
-  let (part, c) ← take 8 2 c
-  let hdr : List (Key × Val) :=
-    [(.message_type, .nat message_type), (.repeat_indicator, .nat repeat_indicator), (.mmsi, .nat mmsi)]
-  match part with
+/-- `static_data_report.rs::parse_message_part`, after the part number has been read. -/
+def parseT24Part (cfg : Cfg) (hdr : List (Key × Val)) (c : Cur) : Nat → Res Msg
   | 0 => do
     let (vessel_name, c) ← parse6bitAscii cfg c 120
     let (_, _) ← take 8 (min c.remaining 7) c
@@ -173,8 +165,19 @@ def parseT24 (cfg : Cfg) (bs : List UInt8) : Res Msg := do
        (.serial_number, .nat serial_number), (.callsign, callsign), (.dimension_to_bow, .nat bow),
        (.dimension_to_stern, .nat stern), (.dimension_to_port, .nat port),
        (.dimension_to_starboard, .nat starboard)]⟩
-  | 2 | 3 => ok ⟨.StaticDataReport, hdr ++ [(.part, .symN "Unknown" part)]⟩
+  | 2 => ok ⟨.StaticDataReport, hdr ++ [(.part, .symN "Unknown" 2)]⟩
+  | 3 => ok ⟨.StaticDataReport, hdr ++ [(.part, .symN "Unknown" 3)]⟩
   | _ => panic .unreachable
+
+/-- `static_data_report.rs` (type 24) -/
+def parseT24 (cfg : Cfg) (bs : List UInt8) : Res Msg := do
+  let c : Cur := ⟨bs, 0⟩
+  let (message_type, c) ← take 8 6 c
+  let (repeat_indicator, c) ← take 8 2 c
+  let (mmsi, c) ← take 32 30 c
+  let (part, c) ← take 8 2 c
+  parseT24Part cfg
+    [(.message_type, .nat message_type), (.repeat_indicator, .nat repeat_indicator), (.mmsi, .nat mmsi)] c part
 
 /-! ### many_m_n -/
 
